@@ -123,6 +123,10 @@ def check_string(cx, http, DS, s):
             d = http.dump_options_header("text/x", {"k": s, "l": "z"})
             first = http.parse_options_header(d)
             cx.eq("options", s, d, first, ("text/x", {"k": s, "l": "z"}))
+            # keys over the whole token alphabet (RFC 9110 tchar), in lower case as the parser returns them
+            kk = ["file_name", "x-y.z", "a1", "_", "k!#$%&'+^`|~", "z_9-"][len(s) % 6]
+            d3 = http.dump_options_header("text/x", {kk: s, "l": "z"})
+            cx.eq("options", (kk, s), d3, http.parse_options_header(d3), ("text/x", {kk: s, "l": "z"}), "C06/options-key-alphabet")
             # a caller may edit what it got back (Request.mimetype_params hands the dict out): a later parse of an
             # equal header must not see that edit
             first[1]["injected"] = "1"
@@ -339,6 +343,15 @@ def check_structured(cx, http, DS, rng, cfg):
         p = http.parse_etags(d)
         rec.nontrivial(("etags", tuple(sorted(st)), tuple(sorted(wk))))
         cx.eq("etags", tags, d, (p.as_set(), p.as_set(True), p.star_tag), (set(st), set(st) | set(wk), False))
+        # the same text may be listed both as a strong and as a weak tag: both listings survive
+        both = rng.choice(tags) if tags else "v1"
+        e2 = DS.ETags(st | {both}, wk | {both})
+        d2 = e2.to_header()
+        p2 = http.parse_etags(d2)
+        cx.eq("etags", (tags, both), d2, (sorted(t for t in st | wk | {both} if p2.is_strong(t)), sorted(t for t in st | wk | {both} if p2.is_weak(t))),
+              (sorted(st | {both}), sorted(wk | {both})), "C06/etags-strong-and-weak")
+        p3 = http.parse_etags(p2.to_header())
+        cx.eq("etags", (tags, both), d2, (p3.as_set(), sorted(t for t in p3.as_set(True) if p3.is_weak(t))), (p2.as_set(), sorted(t for t in p2.as_set(True) if p2.is_weak(t))), "C06/normal-form:etags")
     # lists and dicts of random strings
     items = [rand_str(rng, 5) for _ in range(rng.randint(0, 4))]
     with rec.guard({"pair": "list", "value": items}, "C06"):
